@@ -32,6 +32,17 @@ func (m *Mutex) Lock() {
 		rt.Park("mutex")
 	}
 	m.locked = true
+	held(1)
+}
+
+// held keeps the running task's count of held locks (rt.YieldStmt uses it).
+func held(d int) {
+	if t := rt.Current(); t != nil {
+		t.Locks += d
+		if t.Locks < 0 {
+			t.Locks = 0
+		}
+	}
 }
 
 // TryLock tries to lock m.
@@ -41,6 +52,7 @@ func (m *Mutex) TryLock() bool {
 		return false
 	}
 	m.locked = true
+	held(1)
 	return true
 }
 
@@ -50,6 +62,7 @@ func (m *Mutex) Unlock() {
 		panic("sync: unlock of unlocked mutex")
 	}
 	m.locked = false
+	held(-1)
 	if len(m.waiters) > 0 {
 		t := m.waiters[0]
 		m.waiters = m.waiters[1:]
@@ -83,6 +96,7 @@ func (m *RWMutex) Lock() {
 	}
 	m.wwaiting--
 	m.writer = true
+	held(1)
 }
 
 // Unlock releases the write lock.
@@ -91,6 +105,7 @@ func (m *RWMutex) Unlock() {
 		panic("sync: Unlock of unlocked RWMutex")
 	}
 	m.writer = false
+	held(-1)
 	m.wakeAll()
 	rt.Yield()
 }
@@ -103,6 +118,7 @@ func (m *RWMutex) RLock() {
 		rt.Park("rwmutex.RLock")
 	}
 	m.readers++
+	held(1)
 }
 
 // RUnlock releases a read lock.
@@ -111,6 +127,7 @@ func (m *RWMutex) RUnlock() {
 		panic("sync: RUnlock of unlocked RWMutex")
 	}
 	m.readers--
+	held(-1)
 	if m.readers == 0 {
 		m.wakeAll()
 	}
